@@ -398,35 +398,55 @@ Definition target_hits (tgt p : str) (e : inbound) : bool :=
   str_eqb tgt (p ++ s_colon ++ i_name e) ||
   (nonempty (i_global e) && str_eqb tgt (alias_key (i_global e))).
 
-(* all (task index, task, told, effective inbound channel) *)
-Fixpoint binders_from (k : N) (l : list (wtask * props)) : list (N * wtask * props * inbound) :=
+(* all ((task index, ports requested for the task in ACCEPT), task, told, effective inbound
+   channel) *)
+Definition binder := ((N * list N) * wtask * props * inbound)%type.
+Fixpoint binders_from (k : N) (l : list (wtask * props * list N)) : list binder :=
   match l with
   | [] => []
-  | (w, pr) :: r => map (fun e => (k, w, pr, e)) (eff_in w) ++ binders_from (N.succ k) r
+  | (w, pr, pt) :: r => map (fun e => ((k, pt), w, pr, e)) (eff_in w) ++ binders_from (N.succ k) r
   end.
 
 Definition w_path (w : wtask) : str := join_path (w_names w).
 
-Definition good_hit (addr tr : str) (b : N * wtask * props * inbound) : bool :=
-  let '(_, w, pr, e) := b in
-  w_chans w &&
-  match assoc (i_name e) pr with
-  | Some (baddr, bm, btr) => str_eqb bm m_bind && agree (w_host w) baddr addr && str_eqb tr btr
-  | None => false
-  end.
+(* [addr]/[tr] is the endpoint allocated to channel [e] at launch, as a peer sees it: the
+   binder's host with one of the ports requested for the task, or an IPC path; declared
+   transport *)
+Definition alloc_addr_ok (host : str) (ports : list N) (e : inbound) (addr tr : str) : bool :=
+  str_eqb tr (i_tr e) &&
+  (if i_ipc e then has_prefix s_ipc addr
+   else match drop_prefix (s_tcp ++ host ++ s_colon) addr with
+        | Some ps => match parse_dec ps with Some p => memN p ports | None => false end
+        | None => false
+        end).
 
-Definition classify_hit (b : N * wtask * props * inbound) : N :=
-  let '(_, w, _, e) := b in
-  if negb (w_chans w) then 0      (* channel of a task without channel configuration: not judged *)
-  else if is_explicit (i_target e) then 5
-  else if nonempty (i_target e) then 6
+(* the peer's address agrees with what the binder was told (a binder without channel
+   configuration - control mode basic - is told nothing: the allocation is compared) *)
+Definition good_hit (addr tr : str) (b : binder) : bool :=
+  let '((_, pt), w, pr, e) := b in
+  if w_chans w then
+    match assoc (i_name e) pr with
+    | Some (baddr, bm, btr) => str_eqb bm m_bind && agree (w_host w) baddr addr && str_eqb tr btr
+    | None => false
+    end
+  else alloc_addr_ok (w_host w) pt e addr tr.
+
+(* recorded defect classes: the peer was sent to the allocation of a channel that was told
+   its own explicit target (5) / that was told nothing because its target is invalid (6) *)
+Definition known_hit (cls : N) (addr tr : str) (b : binder) : bool :=
+  let '((_, pt), w, _, e) := b in
+  w_chans w && alloc_addr_ok (w_host w) pt e addr tr &&
+  (if cls =? 5 then is_explicit (i_target e) else invalid_target (i_target e)).
+
+Definition classify_hits (addr tr : str) (hits : list binder) : N :=
+  if existsb (known_hit 5 addr tr) hits then 5
+  else if existsb (known_hit 6 addr tr) hits then 6
   else 1.
 
-Definition hits_of (bs : list (N * wtask * props * inbound)) (d : outbound) :=
-  filter (fun b : N * wtask * props * inbound =>
-            let '(_, w, _, e) := b in target_hits (o_target d) (w_path w) e) bs.
+Definition hits_of (bs : list binder) (d : outbound) : list binder :=
+  filter (fun b : binder => let '(_, w, _, e) := b in target_hits (o_target d) (w_path w) e) bs.
 
-Definition check_out (bs : list (N * wtask * props * inbound)) (pr : props) (d : outbound) : N :=
+Definition check_out (bs : list binder) (pr : props) (d : outbound) : N :=
   match assoc (o_name d) pr with
   | None => if negb (is_explicit (o_target d)) && negb (nonempty (hits_of bs d)) then 15 else 2
   | Some (addr, meth, tr) =>
@@ -436,7 +456,7 @@ Definition check_out (bs : list (N * wtask * props * inbound)) (pr : props) (d :
     else
       match hits_of bs d with
       | [] => 4
-      | h :: r => if existsb (good_hit addr tr) (h :: r) then 0 else classify_hit h
+      | h :: r => if existsb (good_hit addr tr) (h :: r) then 0 else classify_hits addr tr (h :: r)
       end
   end.
 
@@ -460,12 +480,12 @@ Definition check_in (ports : list N) (pr : props) (e : inbound) : N :=
   end.
 
 (* two different channels claiming one alias: 8 = in different tasks, 9 = within one task *)
-Fixpoint alias_codes (bs : list (N * wtask * props * inbound)) : list N :=
+Fixpoint alias_codes (bs : list binder) : list N :=
   match bs with
   | [] => []
-  | (k, _, _, e) :: r =>
+  | ((k, _), _, _, e) :: r =>
     (if nonempty (i_global e) then
-       flat_map (fun b => let '(k', _, _, e') := b in
+       flat_map (fun b : binder => let '((k', _), _, _, e') := b in
                           if str_eqb (i_global e) (i_global e')
                           then [if k =? k' then 9 else 8] else []) r
      else []) ++ alias_codes r
@@ -486,24 +506,24 @@ Definition mon_env (ws : list wtask) (obs : option (list (bindmap * props))) (po
     | Some os =>
       if negb (length ws =? length os)%nat then 20
       else
-        let wp := combine ws (map snd os) in
-        let bs := binders_from 0 wp in
+        let wpp := combine (combine ws (map snd os)) (ports ++ repeat [] (length ws)) in
+        let bs := binders_from 0 wpp in
         let per_task :=
             flat_map (fun x : wtask * props * list N =>
                         let '(w, pr, pt) := x in
                         if w_chans w
                         then map (check_out bs pr) (eff_out w) ++ map (check_in pt pr) (eff_in w)
                         else [])
-                     (combine wp (ports ++ repeat [] (length ws))) in
+                     wpp in
         pick (per_task ++ alias_codes bs)
     | None =>
       (* the configuration failed: it must be because of an unmatched target or an alias
          claimed by channels of two tasks *)
-      let bs := binders_from 0 (map (fun w => (w, [])) ws) in
+      let bs := binders_from 0 (map (fun w => (w, [], [])) ws) in
       let unmatched :=
           existsb (fun w => w_chans w &&
                             existsb (fun d => negb (is_explicit (o_target d)) &&
-                                              negb (existsb (fun b => let '(_, w', _, e) := b in
+                                              negb (existsb (fun b : binder => let '(_, w', _, e) := b in
                                                                       target_hits (o_target d) (w_path w') e) bs))
                                     (eff_out w)) ws in
       if unmatched || existsb (N.eqb 8) (alias_codes bs) then 0 else 12
